@@ -2,7 +2,7 @@
    Model: Model/Terms.v (term AST with every attribute, info, build_from_info, TermList construction, MetaTermMixin plural
    get/set, GAM hand-over, get_params/set_params), tied to pygam/terms.py, core.py, pygam.py by harness/props/c14.py. *)
 From Coq Require Import List ZArith String Bool.
-From PG Require Import Model.Terms Proofs.C14Dedup Proofs.C14Dist Proofs.C14Plural Proofs.C14Info.
+From PG Require Import Model.Terms Model.C14Pen Proofs.C14Dedup Proofs.C14Dist Proofs.C14Plural Proofs.C14Info Proofs.C14Pen.
 Import ListNotations.
 Open Scope string_scope.
 Open Scope list_scope.
@@ -126,6 +126,17 @@ Theorem C14_info_roundtrip_refuted_hidden_factor :
     forall t', build_from_info (info t) = Some t' -> behav t' <> behav t.
 Proof. exact (ex_intro _ w_factor_order w_factor_order_refutes). Qed.
 Print Assumptions C14_info_roundtrip_refuted_hidden_factor.
+
+(* what build_penalties returns is a function of the CURRENT hyper-parameters (Model/C14Pen.v translates a term into the penalty
+   model of C04): equal settings give equal penalties; after an accepted assignment -- whatever was built or assigned before --
+   the penalty is that of any term list constructed with the resulting settings; and (under the round-trip guard) that of the
+   term rebuilt from its info.  The harness compares penalty_now with the implementation after interleaved uses/assignments. *)
+Theorem C14_penalty_function_of_settings :
+  (forall ts us, map behav ts = map behav us -> penalty_now ts = penalty_now us) /\
+  (forall name v ts ts' fresh, tl_set name v ts = (Ok, ts') -> map behav fresh = map behav ts' -> penalty_now fresh = penalty_now ts') /\
+  (forall t, wf_term t -> roundtrip_guard t = true -> exists t', build_from_info (info t) = Some t' /\ pen_term t' = pen_term t).
+Proof. exact (conj penalty_now_settings (conj penalty_after_assign penalty_rebuilt)). Qed.
+Print Assumptions C14_penalty_function_of_settings.
 
 (* set_params applied to the dictionary returned by get_params changes nothing; a public parameter that is set reads back *)
 Theorem C14_params_roundtrip :
